@@ -146,6 +146,9 @@ func panicRest(c *Ctx, dv *dev, fn *ssa.Function, pf *parserFacts, ff fnFacts) {
 	}
 	for _, n := range []string{"noteTracker", "activeNotesCounter", "analogNoteTracker", "octave", "semitone", "channel", "mapping", "velocity", "actionTracker", "keyTracker", "ccZeroed", "lastAnalogValue"} {
 		if dv.fields[n] == nil {
+			if n == "ccZeroed" {
+				continue // one of two ways to keep the controllers' side bookkeeping (R7.1): not an anchor of C13
+			}
 			c.Undec("R13.3", "anchor:Device."+n, "-", "field not found")
 			continue
 		}
